@@ -3,7 +3,7 @@ import ast
 import re
 
 from ..model import AnalysisError, Model, walk_no_nested, norm_stmt
-from .. import flow, chelpers, cgen, evalexpr, cinterp
+from .. import flow, chelpers, cgen, evalexpr, cinterp, sem
 
 EXPLANATION = (
     'Static analysis of the C helper strings (pycparser) and of the generator trees: (R1) every access to self_p->buf_p in a helper uses a '
@@ -237,53 +237,152 @@ def generator_rules(ctx, pid, gen_rel, fun_rel, codec):
     helpers, _structs = chelpers.load_helpers(model, fun_rel)
     R2, R3, R4, R5, R6, R7, R8 = [pid + '.R%d' % i for i in range(2, 9)]
 
-    # ---- R2 bounds before run-time-length accesses
-    dbm = model.mod(GEN).functions.get('does_bits_match_range')
-    if dbm is None:
-        raise AnalysisError('does_bits_match_range vanished from %s' % GEN)
-    ok = ast.unparse(dbm.body[-1]).replace(' ', '') in ('return2**number_of_bits==maximum-minimum+1', 'return2**number_of_bits==(maximum-minimum+1)')
-    if pid == 'C09':
-        ctx.instance(R2, 'does_bits_match_range == (2 ** bits == maximum - minimum + 1)', 'ok' if ok else 'VIOLATION', node=dbm, file=GEN)
-        if not ok:
-            ctx.violation(R2, GEN, dbm, Model.qual(dbm), 'the predicate that allows the bounds check to be omitted must be exactly 2 ** number_of_bits == maximum - minimum + 1 '
-                          '(every bit pattern of the length field is then a legal length)', stmt='does_bits_match_range')
+    # ---- R2 bounds before run-time-length accesses.  The emitted `if (length > maximum) { decoder_abort(..); return; }` may be left out only when every bit
+    #      pattern of the length field is a legal length.  Whatever Python condition decides the omission (a predicate such as does_bits_match_range, a helper
+    #      that returns the guard or nothing) is *evaluated* with the checker's own evaluator on a grid of (minimum, maximum) with the field width the codec
+    #      uses: wherever the field over-covers the range (2**bits - 1 + minimum > maximum) the guard must be emitted.
+    GUARD_LINE = re.compile(r'if \(.*(length|\{[^}]*\})\s*>\s*\{[^}]*\}u\)* \{\{')
+
+    def grid():
+        for lo in (0, 1, 3, 5):
+            for d in (1, 2, 3, 5, 6, 7, 8, 15, 16, 100, 254, 255, 256, 1000):
+                yield lo, lo + d, d.bit_length()
+
+    def holds(conds, env):
+        """do all (text, polarity) literals hold?  -> True / False / None (not evaluable)"""
+        for t, pol in conds:
+            try:
+                v = evalexpr.ev(sem.parse_expr(t), env)
+            except (evalexpr.Unsupported, KeyError, TypeError, SyntaxError, evalexpr.Raised):
+                return None
+            if bool(v) != pol:
+                return False
+        return True
+
+    def omission_ok(conds_fn, offset_is_minimum):
+        """conds_fn(env) -> emitted? ; first grid cell on which the guard is left out although the field over-covers the range, None when there is none,
+        'undecided' when the condition cannot be evaluated"""
+        for lo, hi, bits in grid():
+            off = lo if offset_is_minimum else 0
+            env = {'type_.number_of_bits': bits, 'checker.minimum': lo, 'checker.maximum': hi, 'type_.minimum': lo, 'type_.maximum': hi,
+                   '__funcs__': (lambda name: (lambda r: r if isinstance(r, ast.FunctionDef) else None)(model.mod(gen_rel).resolve_name(name)))}
+            emitted = conds_fn(env)
+            if emitted is None:
+                return 'undecided'
+            if not emitted and (2 ** bits - 1) + off > hi:
+                return (lo, hi, bits)
+        return None
+
+    def helper_guards(f):
+        """calls in f of a function (module-level or method of the generator) that returns a list holding a length guard: [(call, helper, guard constant, paths that return it)]"""
+        out = []
+        for c in walk_no_nested(f):
+            if not isinstance(c, ast.Call):
+                continue
+            h = None
+            if isinstance(c.func, ast.Name):
+                r_ = model.mod(gen_rel).resolve_name(c.func.id)
+                h = r_ if isinstance(r_, ast.FunctionDef) else None
+            elif isinstance(c.func, ast.Attribute) and isinstance(c.func.value, ast.Name) and c.func.value.id == 'self':
+                r_ = g.find_method(c.func.attr)
+                h = r_[1] if r_ else None
+            if h is None or h is f:
+                continue
+            gcs = [k for k in ast.walk(h) if isinstance(k, ast.Constant) and isinstance(k.value, str) and GUARD_LINE.search(k.value)]
+            if not gcs or 'decoder_abort(decoder_p' not in ast.unparse(h):
+                continue
+            ps_ = sem.paths(h, positional=True)
+            if ps_ is None:
+                continue
+            emitting = [p_ for p_ in ps_ if p_.outcome[0] == 'return' and len(p_.outcome) > 3 and p_.outcome[3] is not None
+                        and any(isinstance(k, ast.Constant) and isinstance(k.value, str) and GUARD_LINE.search(k.value) for k in ast.walk(p_.outcome[3]))]
+            out.append((c, h, gcs[0], emitting))
+        return out
     n_acc = 0
     for name, f in sorted(g.methods.items()):
         if not name.startswith('format_') or not name.endswith('_inner'):
             continue
         accesses = cgen.runtime_length_accesses(f)
         guards = cgen.length_guards(f)
+        hguards = helper_guards(f)
+        # is the received length offset by the minimum before it is compared?  ( `length += {}u`.format(checker.minimum) among the decode lines )
+        offset_min = any(isinstance(k, ast.Call) and isinstance(k.func, ast.Attribute) and k.func.attr == 'format' and isinstance(k.func.value, ast.Constant)
+                         and isinstance(k.func.value.value, str) and '+=' in k.func.value.value and 'checker.minimum' in ast.unparse(k) for k in walk_no_nested(f))
         for c, what in accesses:
             n_acc += 1
             aconds = cgen.conds_of(c, f)
             good = None
+            why_not = None
             for gd in guards:
                 if gd.lineno >= c.lineno:
                     continue
-                gst = cgen.stmt_of(gd, f)
                 # the guard must interpolate checker.maximum
                 call = getattr(gd, '_parent', None)
                 while call is not None and not (isinstance(call, ast.Call) and isinstance(call.func, ast.Attribute) and call.func.attr == 'format'):
                     call = getattr(call, '_parent', None)
                 if call is None or 'checker.maximum' not in ast.unparse(call):
                     continue
-                gconds = cgen.conds_of(gd, f)
-                extra = [x for x in gconds if x not in aconds]
-                if all((t.startswith('does_bits_match_range(') and pol is False) or (t.startswith('not does_bits_match_range(') and pol is True)
-                       for t, pol in extra) or not extra:
-                    # aborting + return follows in the same list
-                    lst = getattr(gd, '_parent', None)
-                    while lst is not None and not isinstance(lst, (ast.List, ast.stmt)):
-                        lst = getattr(lst, '_parent', None)
-                    txt = ast.unparse(lst) if lst is not None else ''
-                    if 'decoder_abort(decoder_p' in txt and 'return;' in txt:
-                        good = gd
+                lst = getattr(gd, '_parent', None)
+                while lst is not None and not isinstance(lst, (ast.List, ast.stmt)):
+                    lst = getattr(lst, '_parent', None)
+                txt = ast.unparse(lst) if lst is not None else ''
+                if not ('decoder_abort(decoder_p' in txt and 'return;' in txt):
+                    continue
+                extra = [x for x in cgen.conds_of(gd, f) if x not in aconds]
+                cell = omission_ok(lambda env, extra=extra: holds(extra, env), offset_min) if extra else None
+                if cell is None:
+                    good = gd
+                elif cell == 'undecided':
+                    why_not = why_not or 'undecided'
+                else:
+                    why_not = 'the guard is emitted only under %s; for SIZE (%d..%d) (a field of %d bits) it is left out although the field can hold %d' % (
+                        ' and '.join(('' if pol else 'not ') + t for t, pol in extra), cell[0], cell[1], cell[2], 2 ** cell[2] - 1 + (cell[0] if offset_min else 0))
+            for hc, h, gconst, emitting in hguards:
+                if hc.lineno >= c.lineno or good is not None:
+                    continue
+                hp = flow.param_names(h)
+                if hp and hp[0] in ('self', 'cls'):
+                    hp = hp[1:]
+                argtexts = [ast.unparse(a_) for a_ in hc.args]
+                if not any('maximum' in t for t in argtexts):
+                    continue
+                extra = [x for x in cgen.conds_of(hc, f) if x not in aconds]
+
+                def emitted(env, h=h, emitting=emitting, argtexts=argtexts, extra=extra):
+                    outer = holds(extra, env)
+                    if outer is None or outer is False:
+                        return outer
+                    env2 = dict(env)
+                    for k_, t_ in enumerate(argtexts):
+                        try:
+                            env2['ARG%d' % k_] = evalexpr.ev(sem.parse_expr(t_), env)
+                        except (evalexpr.Unsupported, KeyError, TypeError, SyntaxError):
+                            env2['ARG%d' % k_] = 'x'       # a name / text argument: irrelevant to the numeric condition
+                    res = False
+                    for p_ in emitting:
+                        r_ = holds([(c_[0], c_[1]) for c_ in p_.conds], env2)
+                        if r_ is None:
+                            return None
+                        res = res or r_
+                    return res
+                cell = omission_ok(emitted, offset_min)
+                if cell is None:
+                    good = gconst
+                elif cell == 'undecided':
+                    why_not = why_not or 'undecided'
+                else:
+                    why_not = 'the guard comes from %s(%s), which leaves it out for SIZE (%d..%d) (a field of %d bits) although the decoded length can be %d' % (
+                        h.name, ', '.join(argtexts), cell[0], cell[1], cell[2], 2 ** cell[2] - 1 + (cell[0] if offset_min else 0))
             cons = '%s [%s: %s]' % (Model.qual(f), what, c.value.strip()[:50])
+            if good is None and why_not == 'undecided':
+                ctx.instance(R2, cons, 'undecided', 'the condition under which the bounds check is emitted is not evaluable', nontrivial=False, node=c, file=gen_rel)
+                continue
             ctx.instance(R2, cons, 'guarded by `%s`' % good.value.strip() if good is not None else 'VIOLATION', node=c, file=gen_rel)
             if good is None:
                 ctx.violation(R2, gen_rel, c, Model.qual(f),
-                              'the decoder template uses a length decoded at run time (%s) without an emitted `if (length > maximum) { decoder_abort(...); return; }` before it: '
-                              'a received length above the declared maximum indexes past the fixed-size C array' % what, stmt='unguarded run-time length: ' + c.value.strip()[:60])
+                              'the decoder template uses a length decoded at run time (%s) without an emitted `if (length > maximum) { decoder_abort(...); return; }` before it%s: '
+                              'a received length above the declared maximum indexes past the fixed-size C array' % (what, (' -- ' + why_not) if why_not else ''),
+                              stmt='unguarded run-time length: ' + c.value.strip()[:60])
     floor = 1      # the templates may be merged or split by a refactoring of the generator: at least one must be recognised
     ctx.extra['%s_runtime_length_accesses' % pid] = n_acc
     if n_acc < floor and not any(x.rule == R2 for x in ctx.findings):
